@@ -505,11 +505,12 @@ func build(t, v map[string]interface{}) reflect.Value {
 		out.Set(p)
 	case "slice":
 		es := seqOf(v["e"])
-		s := reflect.MakeSlice(rt, len(es), len(es))
-		for i, e := range es {
+		spare := seqOf(v["spare"]) // stale elements in the capacity beyond the length (prior value "precap")
+		s := reflect.MakeSlice(rt, len(es)+len(spare), len(es)+len(spare))
+		for i, e := range append(append([]interface{}{}, es...), spare...) {
 			s.Index(i).Set(build(rec(t["e"]), rec(e)))
 		}
-		out.Set(s)
+		out.Set(s.Slice(0, len(es)))
 	case "arr":
 		for i, e := range seqOf(v["e"]) {
 			out.Index(i).Set(build(rec(t["e"]), rec(e)))
@@ -612,6 +613,35 @@ func zeroV(t map[string]interface{}) map[string]interface{} {
 		return map[string]interface{}{"g": "st", "f": f}
 	}
 	return nilV
+}
+
+// preCapV mirrors PreCap of spec/Bind.tla: slices of one visible element with two stale ones in the spare capacity
+func preCapV(t map[string]interface{}) map[string]interface{} {
+	k := sstr(t["k"])
+	switch {
+	case k == "slice" && sstr(rec(t["e"])["k"]) != "u8":
+		return map[string]interface{}{"g": "a", "e": []interface{}{preCapV(rec(t["e"]))}, "spare": []interface{}{preV(rec(t["e"])), preV(rec(t["e"]))}}
+	case k == "ptr":
+		return map[string]interface{}{"g": "p", "e": preCapV(rec(t["e"]))}
+	case k == "arr":
+		var e []interface{}
+		for i := 0; i < intOf(t["n"]); i++ {
+			e = append(e, preCapV(rec(t["e"])))
+		}
+		return map[string]interface{}{"g": "a", "e": e}
+	case k == "st":
+		var f []interface{}
+		for _, fd := range seqOf(t["f"]) {
+			f = append(f, preCapV(rec(rec(fd)["t"])))
+		}
+		return map[string]interface{}{"g": "st", "f": f}
+	case k == "rec":
+		if intOf(t["d"]) == 0 {
+			return preV(t)
+		}
+		return preCapV(unfoldRec(t))
+	}
+	return preV(t)
 }
 
 func preV(t map[string]interface{}) map[string]interface{} {
